@@ -1,6 +1,10 @@
 package fsnotify
 
-import "golang.org/x/sys/unix"
+import (
+	"path/filepath"
+
+	"golang.org/x/sys/unix"
+)
 
 // C18 — kqueue: a watched directory reports each new entry once, then its changes.
 
@@ -215,8 +219,65 @@ func H_kq_nested() {
 	verifRaise("/d/a", unix.NOTE_WRITE)
 	got = verifCollect(wt, nil)
 	verifExpect(got, []verifKqExp{{"/d/a/y", Create}}, "a new entry of the sub-directory is reported once; existing ones are not reported as new")
+	// the parent changes later (twice): the sub-directory existed when the parent was added
+	for i := 0; i < 2; i++ {
+		verifRaise("/d", unix.NOTE_WRITE)
+		got = verifCollect(wt, nil)
+		verifExpect(got, nil, "an entry that existed (and was already watched) when its directory was added is never reported as Create")
+	}
 	verifAssert(wt.Close() == nil, "Close")
 	verifReach("kq-nested")
+}
+
+// A file watched by the user before its directory is: it existed when the
+// directory's watch was added, so no Create - not on any later directory change.
+func H_kq_entry_first() {
+	verifQReset()
+	verifAddNode("/d", nDir, "")
+	verifAddNode("/d/a", nFile, "")
+	verifAddNode("/d/c", nAbsent, "")
+	wt, _ := verifKqNew()
+	verifAssert(wt.Add("/d/a") == nil, "Add entry")
+	verifAssert(wt.Add("/d") == nil, "Add its directory")
+	verifExpect(verifCollect(wt, nil), nil, "entries that existed when the watches were added are never reported as Create")
+	verifNodeOf2("/d/c").kind = nFile
+	verifRaise("/d", unix.NOTE_WRITE)
+	verifExpect(verifCollect(wt, nil), []verifKqExp{{"/d/c", Create}}, "only the new entry is reported")
+	verifRaise("/d", unix.NOTE_WRITE)
+	verifExpect(verifCollect(wt, nil), nil, "a later directory change reports nothing again")
+	verifRaise("/d/a", unix.NOTE_WRITE)
+	verifExpect(verifCollect(wt, nil), []verifKqExp{{"/d/a", Write}}, "a change of the user-added entry is reported once (one watch, not two)")
+	verifAssert(wt.Close() == nil, "Close")
+	verifReach("kq-entry-first")
+}
+
+// The watched directory is "." or the root: entry names are formed by joining,
+// so they agree between the initial listing, later listings and the events.
+func H_kq_dot_root() {
+	verifQReset()
+	var base string
+	var spell []string
+	if verifBool("root") {
+		base, spell = "/", []string{"/", "//", "/."}
+	} else {
+		base, spell = ".", []string{".", "./", "x/.."}
+	}
+	verifAddNode(base, nDir, "")
+	a, c := filepath.Join(base, "a"), filepath.Join(base, "c")
+	verifAddNode(a, [...]int{nFile, nFifo}[verifChoose("kind-a", 2)], "")
+	verifAddNode(c, nAbsent, "")
+	wt, _ := verifKqNew()
+	verifAssert(wt.Add(spell[verifChoose("spelling", 3)]) == nil, "Add dir")
+	verifExpect(verifCollect(wt, nil), nil, "entries that existed when the watch was added are never reported as Create")
+	verifNodeOf2(c).kind = nFile
+	verifRaise(base, unix.NOTE_WRITE)
+	verifExpect(verifCollect(wt, nil), []verifKqExp{{c, Create}}, "a new entry of a directory watched as . or / is reported once, existing ones not at all")
+	verifRaise(base, unix.NOTE_WRITE)
+	verifExpect(verifCollect(wt, nil), nil, "a later directory change reports nothing again")
+	verifRaise(c, unix.NOTE_WRITE)
+	verifExpect(verifCollect(wt, nil), []verifKqExp{{c, Write}}, "changes of the new entry are reported under the same name as its Create")
+	verifAssert(wt.Close() == nil, "Close")
+	verifReach("kq-dot-root")
 }
 
 // ---- multi-step histories against a small reference model ----
